@@ -38,6 +38,9 @@ pub enum Earlier {
     },
     /// A sequential walk over the graph (`iter`, `fold`, `try_for_each` with an error ...).
     Sequential(u8),
+    /// Between two runs: the k-th thing left over from earlier runs (a `FnRef`, a
+    /// stream value) is dropped now.
+    DropLeftover(usize),
 }
 
 #[derive(Clone, Debug, PartialEq, Eq, Hash, Serialize, Deserialize)]
@@ -120,6 +123,19 @@ impl Leftovers {
         let f: fn_graph::FnRef<'static, crate::model::TestFn> = unsafe { std::mem::transmute(f) };
         self.0.push(Box::new(move || drop(f)));
     }
+    /// A stream value kept alive after its run.
+    fn keep_stream(&mut self, s: std::pin::Pin<Box<dyn futures::Stream<Item = crate::explore::Item<'_>> + '_>>) {
+        // SAFETY: as for `keep`.
+        let s: std::pin::Pin<Box<dyn futures::Stream<Item = crate::explore::Item<'static>> + 'static>> =
+            unsafe { std::mem::transmute(s) };
+        self.0.push(Box::new(move || drop(s)));
+    }
+    fn drop_one(&mut self, k: usize) {
+        if k < self.0.len() {
+            let e = self.0.remove(k);
+            let _ = std::panic::catch_unwind(std::panic::AssertUnwindSafe(e));
+        }
+    }
     fn drop_all(&mut self) {
         for e in self.0.drain(..) {
             let _ = std::panic::catch_unwind(std::panic::AssertUnwindSafe(e));
@@ -190,6 +206,9 @@ fn run_with_abort(
             for f in c.take_held() {
                 left.keep(f);
             }
+            if let Some(s) = c.take_stream() {
+                left.keep_stream(s);
+            }
         }
         let ret = c.ret().cloned().unwrap_or(Ret::Deadlock);
         (c.acts().to_vec(), ret, c.trace())
@@ -209,6 +228,7 @@ fn replay_earlier(g: &mut fn_graph::FnGraph<crate::model::TestFn>, e: &Earlier, 
             left.drop_all();
             sequential_walk(g, *w)
         }
+        Earlier::DropLeftover(k) => left.drop_one(*k),
         Earlier::Run { cfg, acts, keep } => {
             if cfg.api.shape.is_stream() {
                 let mut c = Consumer::new(&*g, cfg);
@@ -218,6 +238,9 @@ fn replay_earlier(g: &mut fn_graph::FnGraph<crate::model::TestFn>, e: &Earlier, 
                 if *keep {
                     for f in c.take_held() {
                         left.keep(f);
+                    }
+                    if let Some(s) = c.take_stream() {
+                        left.keep_stream(s);
                     }
                 }
             } else {
@@ -383,6 +406,11 @@ impl Check for HistoryCheck {
         let mut abnormal = false;
         let mut execs = 0u64;
         for _ in 0..n_earlier {
+            if !left.0.is_empty() && ct.chance(1, 3) {
+                let k = ct.below(left.0.len());
+                left.drop_one(k);
+                earlier.push(Earlier::DropLeftover(k));
+            }
             if ct.chance(1, 6) {
                 let w = ct.below(5) as u8;
                 left.drop_all();
@@ -408,6 +436,11 @@ impl Check for HistoryCheck {
                 abnormal = true;
             }
             earlier.push(Earlier::Run { cfg, acts, keep });
+        }
+        if !left.0.is_empty() && ct.chance(1, 3) {
+            let k = ct.below(left.0.len());
+            left.drop_one(k);
+            earlier.push(Earlier::DropLeftover(k));
         }
         let last_cfg = decode_cfg(&mut ct, &self.profile, n, INTR);
         let r1 = {
@@ -451,6 +484,7 @@ impl Check for HistoryCheck {
         for e in &case.earlier {
             match e {
                 Earlier::Sequential(_) => labels.push("history:has_sequential_walk".into()),
+                Earlier::DropLeftover(_) => labels.push("history:leftover_dropped_between_runs".into()),
                 Earlier::Run { cfg, acts, .. } => {
                     if acts.contains(&Act::Abort) {
                         labels.push(format!(
@@ -834,7 +868,9 @@ impl Check for MultiCheck {
         let spec = decode_spec(&mut gt, &self.profile);
         let n = spec.n();
         let mut ct = Tape::new(&tapes[1]);
-        let k = 2 + if ct.chance(1, 4) { 1 } else { 0 };
+        // two runs, sometimes three, rarely many (9..=12: more runs alive at once than
+        // any small pool of per-thread or per-graph resources holds)
+        let k = if ct.chance(1, 40) { 9 + ct.below(4) } else { 2 + if ct.chance(1, 4) { 1 } else { 0 } };
         let mut cfgs: Vec<RunCfg> = (0..k).map(|_| decode_cfg(&mut ct, &self.profile, n, INTR)).collect();
         // twins: the same call made twice (two workers doing the same thing)
         if ct.chance(1, 2) {
